@@ -3677,4 +3677,53 @@ theorem module_call_hooks_run {cfg : Cfg} {me : ChainId} {c c2 : Chain} {p : Pac
       exact ⟨p2, rfl, by simp [upd1]⟩
     · cases hk
 
+/-- **An acknowledgement touches only its own packet.** Whatever its outcome (accepted with any code, rejected), the
+relay of the acknowledgement of packet (s → d, q) is a frame on every other packet: every other chain is unchanged, and on
+the source every commitment other than that of (d, q) is still there — so each of those packets can still be
+acknowledged (delivered-and-settled or refunded) later, in whatever order the acknowledgements arrive and however many
+packets are in flight on the path; no commitment appears; counters, receipts and acknowledgements of the source are as
+before. (Store keys of different sequences never alias in the model: commitments are a set of packets keyed by
+(dst, seq); the harness checks the same of the real store, where `…/sequences/1` is a byte prefix of `…/sequences/10`.) -/
+theorem ack_touches_only_its_packet (w : World) (s d : ChainId) (q : Nat) :
+    let w' := step true w (.ack s d q)
+    (∀ i, i ≠ s → w'.chains i = w.chains i) ∧
+    (∀ p', p' ∈ (w.chains s).commits → ¬ (p'.dst = d ∧ p'.seq = q) → p' ∈ (w'.chains s).commits) ∧
+    (∀ p', p' ∈ (w'.chains s).commits → p' ∈ (w.chains s).commits) ∧
+    (w'.chains s).nextSeq = (w.chains s).nextSeq ∧ (w'.chains s).receipts = (w.chains s).receipts ∧
+    (w'.chains s).acks = (w.chains s).acks := by
+  simp only [step]
+  split
+  · exact ⟨fun _ _ => rfl, fun _ h _ => h, fun _ h => h, rfl, rfl, rfl⟩
+  rename_i p hf
+  obtain ⟨_, hpd, hps⟩ := findPacket_some hf
+  split
+  · exact ⟨fun _ _ => rfl, fun _ h _ => h, fun _ h => h, rfl, rfl, rfl⟩
+  split
+  · exact ⟨fun _ _ => rfl, fun _ h _ => h, fun _ h => h, rfl, rfl, rfl⟩
+  rename_i c ha
+  obtain ⟨_, e⟩ := ack_eff (ackMsg_some ha).1
+  refine ⟨fun i hi => set_chains_ne _ _ hi, ?_, ?_, ?_, ?_, ?_⟩
+  · intro p' hm hne
+    rw [set_chains_eq, e.commits]
+    have : p' ≠ p := fun h => hne (by rw [h]; exact ⟨hpd, hps⟩)
+    exact (List.mem_erase_of_ne this).mpr hm
+  · intro p' hm
+    rw [set_chains_eq, e.commits] at hm
+    exact List.mem_of_mem_erase hm
+  · rw [set_chains_eq]; exact e.nextSeq
+  · rw [set_chains_eq]; exact e.receipts
+  · rw [set_chains_eq]; exact e.acks
+
+/-- … in particular a packet that is `Pending` stays `Pending` through the acknowledgement of any other packet -/
+theorem pending_survives_foreign_ack (w : World) (s d : ChainId) (q : Nat) (S D : ChainId) (q' : Nat)
+    (hp : Pending w S D q') (hne : ¬ (S = s ∧ D = d ∧ q' = q)) : Pending (step true w (.ack s d q)) S D q' := by
+  obtain ⟨p', hm, h1, h2⟩ := hp
+  obtain ⟨hother, hkeep, _⟩ := ack_touches_only_its_packet w s d q
+  by_cases hS : S = s
+  · subst hS
+    refine ⟨p', hkeep p' hm ?_, h1, h2⟩
+    intro hh; exact hne ⟨rfl, h1 ▸ hh.1, h2 ▸ hh.2⟩
+  · refine ⟨p', ?_, h1, h2⟩
+    rw [hother S hS]; exact hm
+
 end TM.World
